@@ -30,6 +30,9 @@ CHECKS = {
  "C12": (EX, "bounded exhaustive enumeration of (dim 1-4 x angle tuples x anisotropy ratios) against explicit rotation / stretching matrices written from the documented conventions; pipeline equivalence anisotropic-at-x vs isotropic-at-Tx",
          "All angle tuples over an alphabet containing every multiple of pi/2 and generic values (all 3-tuples in 3-D, all tuples with at most 3 non-zero of 6 angles in 4-D) x all anisotropy tuples from {1, .5, .1, 3}; rotation matrices, inverses, main axes, model transforms and length scales along rotated axes are compared with the documented Givens recipe; SRF, Fourier SRF, kriging and CondSRF with the rotated anisotropic model at x are compared with the isotropic model at the oracle-transformed positions.",
          "finite angle / ratio alphabets; the documented conventions (tutorials) are the reference", "5/C12"),
+ "C05": (EX, "small-scope exhaustive enumeration of kriging set-ups (variant x model x coordinate configuration x all k-subsets of a point pool x option product) against an independent dense solution of the documented kriging system",
+         "Every enumerated kriging system (8 variants incl. custom/quadratic/external drifts and drift without unbiasedness; dim 1-3, 2D+time, lat-lon, lat-lon+time; isotropic and anisotropic/rotated; exact x measurement-error kinds x pseudo-inverse types) is solved by the library and by numpy.linalg on a system assembled from the definition with oracle covariances and oracle coordinate transforms; weights (unit data vectors), constants, drift reproduction, chunk sizes, mesh types, all permutations of up to 4 data / 4 targets, mean / trend / normalizer pipelines, get_mean and only_mean are compared.",
+         "conditioning sets of at most 5 points; cond(K) > 1e10 skipped (counted); tolerance scaled by cond(K)", "5/C05"),
 }
 PENDING = {}
 def main():
